@@ -268,3 +268,12 @@ SHARED_PROGRAMS = [
     "main:\n    la t0, handler\n    csrrw zero, 5, t0\n    jal f\n    li a7, 10\n    ecall\nhandler:\n    .align 4\n    csrrw t0, 64, t0\n    csrrw t0, 64, t0\n    uret\n.data\nmsg: .asciz \"hi\"\n.text\nf:\n.align 2\n    li a0, 1\n    ret\n",
     "main:\n    jal f\n    li a7, 10\n    ecall\n.data\nd1: .word 1\nd2: .space 8\n.text\n.align 2\nf:\n.align 2\nf2:\n    beqz a0, f2\n    ret\n",
 ]
+
+# a function whose label is in one file and whose first instruction is in another, with a diagnostic at its entry
+ENTRY_SPLIT_FILES = [
+    {"main.s": "main:\n    jal helper\n    j helper\n    li a7, 10\n    ecall\nhelper:\n.include \"body.s\"\n", "body.s": "    addi a0, a0, 1\n    ret\n"},
+    {"main.s": "main:\n    jal spin\n    li a7, 10\n    ecall\nspin:\n.include \"body.s\"\n", "body.s": "again:\n    addi t0, t0, 1\n    j again\n"},
+    {"main.s": "first:\n.include \"body.s\"\nmain:\n    jal first\n    li a7, 10\n    ecall\n", "body.s": "\n\n    addi a0, a0, 1\n    ret\n"},
+    {"main.s": "main:\n    jal f\n    li a7, 10\n    ecall\n.include \"lab.s\"\n    addi a0, a0, 1\n    beqz a0, f\n    ret\n", "lab.s": "# the label only\n\nf:\n"},
+]
+TWIN_FILES += ENTRY_SPLIT_FILES
